@@ -421,6 +421,30 @@ func (in *Interp) lookupAlts(st *State, m MapV, k Value, zero Value) (alts []Alt
 	return alts, found
 }
 
+// onlyOkUsed reports whether every use of a comma-ok lookup extracts the ok
+// component.
+func onlyOkUsed(x *ssa.Lookup) bool {
+	refs := x.Referrers()
+	if refs == nil {
+		return false
+	}
+	for _, r := range *refs {
+		e, ok := r.(*ssa.Extract)
+		if !ok {
+			if _, dbg := r.(*ssa.DebugRef); dbg {
+				continue
+			}
+			return false
+		}
+		if e.Index != 1 {
+			if er := e.Referrers(); er != nil && len(*er) > 0 {
+				return false
+			}
+		}
+	}
+	return true
+}
+
 func isScalar(v Value) bool {
 	_, ok := v.(*smt.Term)
 	return ok
@@ -439,6 +463,18 @@ func (in *Interp) lookup(st *State, fr *Frame, x *ssa.Lookup) []Alt {
 	// merge into an ite chain when every value is a scalar term or the
 	// element type is an empty struct (set membership)
 	allScalar := true
+	if x.CommaOk && onlyOkUsed(x) {
+		// the value component is never read: no need to distinguish entries
+		okT := smt.False
+		for i := range alts {
+			if found[i] {
+				okT = smt.Or(okT, alts[i].Cond)
+			}
+		}
+		fr.Env[x] = TupleV{zero, okT}
+		fr.IP++
+		return nil
+	}
 	for _, a := range alts {
 		if !isScalar(a.Ret) {
 			if sv, ok := a.Ret.(*StructV); ok && len(sv.F) == 0 {
